@@ -222,8 +222,73 @@ def rr_unit(u):
     return st
 
 
+def insitu_unit(u):
+    """The producer keeps one partitioner per topic and hands it the client's current partition list: unkeyed
+    sends cycle fairly over the topic's partitions, keyed sends land on the partition the Java client picks."""
+    from mc import explore
+    st = enum.EnumStats()
+    nparts = u["nparts"]
+    cluster = {"brokers": [1, 2], "topics": {"t": {str(p): 1 + p % 2 for p in range(nparts)},
+                                             "u": {"0": 1, "1": 2}}}
+    keys = ["k%d" % i for i in range(4)]
+    if u["partitioner"] == "rr":
+        script = []
+        for i in range(2 * nparts):
+            script.append(["send", "t", None, ["t%d" % i]])
+            if i % 2:
+                script.append(["send", "u", None, ["u%d" % i]])  # interleaved topic must not disturb the cycle
+    else:
+        script = [["send", "t", k, ["v-%s-%d" % (k, j)]] for j in range(2) for k in keys]
+    cfg = {"prop": "C18", "cluster": cluster, "discovery": False,
+           "producer": {"acks": 1, "partitioner": u["partitioner"], "batch_send": u["batched"],
+                        "batch_every_n": 2, "batch_every_b": 0, "batch_every_t": 0},
+           "script": script, "menu": {}, "timeout_ms": 2000}
+    factory = explore.load_factory("harness.producer:ProducerWorld")
+    x, h = explore.run_one(factory, cfg, [], max_steps=400)
+    st.evaluations += 1
+    chosen = {}  # send index -> partition
+    for (_step, _t, idx, content) in h.calls:
+        for (topic, part), kvs in content.items():
+            for kv in kvs:
+                o = h.value_owner.get(kv)
+                if o is not None and o[0] not in chosen:
+                    chosen[o[0]] = (topic, part)
+    if u["partitioner"] == "rr":
+        seq = [chosen[s.i][1] for s in h.sends if s.topic == "t" and s.i in chosen]
+        if len(seq) != 2 * nparts:
+            st.violations.append({"oracle": "in-situ", "signature": "C18:in-situ-sends-not-dispatched",
+                                  "message": "only %d of %d sends reached the client" % (len(seq), 2 * nparts),
+                                  "input": {"insitu": u}, "check": "checks.C18"})
+        for w in range(0, max(0, len(seq) - nparts) + 1):
+            win = seq[w:w + nparts]
+            if len(win) == nparts and sorted(win) != list(range(nparts)):
+                st.violations.append({"oracle": "in-situ", "signature": "C18:in-situ-round-robin-unfair",
+                                      "message": "producer chose partitions %r for consecutive unkeyed sends to a "
+                                      "topic with partitions %r" % (seq, list(range(nparts))),
+                                      "input": {"insitu": u}, "check": "checks.C18"})
+                break
+    else:
+        java = dict(zip(keys, jvm_hashes([k.encode() for k in keys])))
+        for s_ in h.sends:
+            if s_.i not in chosen:
+                continue
+            want = (java[s_.key.decode()] & 0x7FFFFFFF) % nparts
+            if chosen[s_.i][1] != want:
+                st.violations.append({"oracle": "in-situ", "signature": "C18:in-situ-keyed-send-on-wrong-partition",
+                                      "message": "key %r went to partition %d, the Java client picks %d of %d" % (
+                                          s_.key, chosen[s_.i][1], want, nparts),
+                                      "input": {"insitu": u}, "check": "checks.C18"})
+                break
+    st.classes.add(_digest(("insitu", u["partitioner"], nparts, u["batched"])))
+    st.samples.append({"in_situ": u, "partitions_chosen": [chosen.get(s_.i) for s_ in h.sends][:8]})
+    return st
+
+
 def replay(v):
     inp = v["input"]
+    if "insitu" in inp:
+        ensure_jvm()
+        return [x for x in insitu_unit(inp["insitu"]).violations if x["signature"] == v["signature"]][:1]
     if "hist" in inp:
         st = rr_unit({"first": inp["hist"][0], "depth": len(inp["hist"]), "random_start": inp["random_start"]})
         return [x for x in st.violations if x["signature"] == v["signature"]][:1]
@@ -275,11 +340,17 @@ def run(tier, seed, only=None):
             units += [{"first": f, "depth": 12, "random_start": False} for f in range(len(RR_LISTS))]
         st = enum.run_units("checks.C18:rr_unit", units, seed)
         enum.fold(rep, "round-robin-histories", st)
+    if "insitu" in (only or ["insitu"]):
+        units = [{"partitioner": p, "nparts": n, "batched": b} for p in ("rr", "hashed") for n in (1, 2, 3, 5)
+                 for b in (False, True)]
+        st = enum.run_units("checks.C18:insitu_unit", units, seed)
+        enum.fold(rep, "producer-in-situ", st)
     rep.coverage["rule"] = (
         "hash: every key of length 0..%d over the byte alphabet %s (shorter first) plus 177 long keys (len 9..67) "
         "and 781 text keys, pure_murmur2 and HashedPartitioner.partition compared with Kafka's Utils.murmur2 run on "
         "the JVM; rr: every sequence of partition() calls of the stated depth over the lists %r with every pair of "
-        "randint answers when randomStart is on.  Distinct non-trivial = distinct (len%%4, first byte, last byte, "
+        "randint answers when randomStart is on; in situ: the real Producer+KafkaClient on the virtual cluster with 1/2/3/5 "
+        "partitions, batched and unbatched, round-robin (with sends to a second topic interleaved) and hashed.  Distinct non-trivial = distinct (len%%4, first byte, last byte, "
         "hash low bits) classes for keys, distinct histories containing at least one list change for round robin."
         % (maxlen, ALPHA.hex(), RR_LISTS))
     rep.assumptions = [
